@@ -623,10 +623,9 @@ fn handle_run_request(
                 Err(CommandError::Action(EvalAction::Skip)) => {
                     let stack_frame = env.stack.0.last_mut().unwrap();
 
-                    stack_frame
-                        .exprs_to_eval
-                        .pop()
-                        .expect("Tried to skip an expression, but none in this frame.");
+                    // If nothing is pending (e.g. :skip at an idle
+                    // prompt) there is nothing to skip.
+                    stack_frame.exprs_to_eval.pop();
 
                     eval_to_response(env, session)
                 }
